@@ -71,6 +71,7 @@ func main() {
 	r.Require("zero_size_remove_calls", 5000)
 	r.Require("equal_nan_cases", 1000)
 	r.Require("flex_selfarg_capacity_limited_arg", 500)
+	r.Require("flex_sparearg_argument_straddles_len", 5000)
 
 	// anti-vacuity floors (far below what a healthy run observes)
 	for _, k := range []string{"calls/Diff", "calls/Intersect", "calls/Unique", "calls/DiffInPlaceFirst", "calls/IntersectInPlaceFirst", "calls/UniqueInPlace"} {
